@@ -1060,7 +1060,53 @@ def contract_falsy(case):
     return ("ok", True)
 
 
+# ================================================================================================ mutable options
+def gen_options(tier, seed):
+    for kind in ("dict", "list"):
+        for how in ("keyword", "positional"):
+            for mode in ("calls", "as_completed", "composed"):
+                for order in ("given", "reversed"):
+                    if mode == "composed" and kind != "list":
+                        continue
+                    yield [kind, how, mode, order]
+
+
+def contract_options(case):
+    """an app built from a function with a mutable option processes every record as if it were the only one, and leaves
+    the caller's option object as it was"""
+    from cogent3.app.composable import NotCompleted
+    from speclib import c14_mutable
+    kind, how, mode, order = case
+    try:
+        r = c14_mutable.run(kind, how, mode, order)
+    except Exception as e:
+        return ("fail", f"options/{kind}/{how}/{mode}/raises-{type(e).__name__}", f"{case}: {type(e).__name__}: {e}")
+    if r is None:
+        return ("skip",)
+    rows, opt, before = r
+    for k, (rec, got, want) in enumerate(rows):
+        val = getattr(got, "obj", got) if not isinstance(got, NotCompleted) else got
+        if isinstance(got, NotCompleted):
+            return ("fail", f"options/{kind}/{how}/{mode}/not-completed", f"{case}: record {k} ({rec!r}) -> {got}")
+        if val != want:
+            return ("fail", f"options/{kind}/{how}/{mode}/record-depends-on-earlier-records",
+                    f"{case}: record {k} ({rec!r}) of {len(rows)} gives {val!r}; processed alone it gives {want!r}")
+    if opt != before:
+        return ("fail", f"options/{kind}/{how}/{mode}/callers-option-object-changed", f"{case}: the option given at construction is now {opt!r}, it was {before!r}")
+    return ("ok", True)
+
+
 BOUNDED = {
+    "mutable_options": {
+        "gen": gen_options, "contract": contract_options,
+        "functions": ["app.composable._class_from_func (_init / _main of function-defined apps)", "define_app",
+                      "composable._as_completed"],
+        "bound": "2 function-defined apps that modify a dict / list option given at construction (keyword or positional) x "
+                 "4 records in two orders x {direct calls on one instance, as_completed serial, composed after another app}",
+        "rule": "every record's result equals the result of processing it alone (plain formula); the caller's option object "
+                "is unchanged",
+        "shards": 1,
+    },
     "falsy_values": {
         "gen": gen_falsy, "contract": contract_falsy,
         "functions": ["app.composable._call (composition of three or four user-defined apps)", "define_app"],
